@@ -9,7 +9,9 @@ only = sys.argv[1:]
 res = {}
 out = os.path.join(VERIF, "seeded", "REGRESSION.json")
 if os.path.exists(out):
-    res = {k: v for k, v in json.load(open(out)).items() if v.get("status") == "caught"}      # resume
+    # resume: what was caught stays; with properties / ids named on the command line everything else is kept as recorded too
+    res = {k: v for k, v in json.load(open(out)).items()
+           if v.get("status") == "caught" or (only and k not in only and k.split("-")[0] not in only)}
 for d in sorted(glob.glob(os.path.join(VERIF, "seeded", "C*"))):
     sid = os.path.basename(d)
     prop = sid.split("-")[0]
